@@ -59,10 +59,23 @@ pub fn wmc_lines(rng: &mut Rng, maxvars: usize, maxops: usize) -> Vec<String> {
     let pi = rng.below(7) as usize;
     let p = PRIMES[pi];
     // normalised field weights, arbitrary small integer weights, dyadic real weights
+    // normalised weights: random, or (one case in three) from the boundary family
+    // (P-1,2), (2,P-1), (1,0), (0,1), ((P+1)/2,(P+1)/2) whose partial sums hit 0, P-1, P exactly
+    let boundary = rng.chance(1, 3);
     let wn: Vec<(u128, u128)> = (0..n)
         .map(|_| {
-            let h = 2 + (((rng.next() as u128) << 64 | rng.next() as u128) % (p - 2));
-            ((p + 1 - h) % p, h)
+            if boundary {
+                match rng.below(5) {
+                    0 => (p - 1, 2),
+                    1 => (2, p - 1),
+                    2 => (1, 0),
+                    3 => (0, 1),
+                    _ => ((p + 1) / 2, (p + 1) / 2),
+                }
+            } else {
+                let h = 2 + (((rng.next() as u128) << 64 | rng.next() as u128) % (p - 2));
+                ((p + 1 - h) % p, h)
+            }
         })
         .collect();
     let wa: Vec<(u128, u128)> = (0..n).map(|_| (rng.range(0, 5) as u128, rng.range(0, 5) as u128)).collect();
@@ -107,6 +120,30 @@ pub fn wmc_lines(rng: &mut Rng, maxvars: usize, maxops: usize) -> Vec<String> {
                 .collect();
             let cn = by_prime!(pi, wmc_ff, d, &wn);
             let ca = wmc_ff::<{ primes::U64_LARGEST }>(d, &wa);
+            // smoothing over every admissible width, narrowest first or widest first, on the same
+            // builder (the width is a parameter of every call)
+            let k0 = {
+                fn maxlvl(p: BddPtr, o: &rsdd::repr::VarOrder) -> usize {
+                    match p {
+                        BddPtr::Reg(nd) | BddPtr::Compl(nd) => {
+                            std::cmp::max(o.get(nd.var) + 1, std::cmp::max(maxlvl(nd.low, o), maxlvl(nd.high, o)))
+                        }
+                        _ => 0,
+                    }
+                }
+                maxlvl(d, b.order())
+            };
+            let mut widths: Vec<usize> = (k0..=n).collect();
+            if i % 2 == 1 {
+                widths.reverse();
+            }
+            let smk: Vec<String> = widths
+                .iter()
+                .map(|&k| {
+                    let s = b.smooth(d, k);
+                    format!("{}:{}:{}", k, bdd_raw_string(s), wmc_ff::<{ primes::U64_LARGEST }>(s, &wa))
+                })
+                .collect();
             let sm = b.smooth(d, n);
             let sa = wmc_ff::<{ primes::U64_LARGEST }>(sm, &wa);
             let ones: Vec<(u128, u128)> = (0..n).map(|_| (1, 1)).collect();
@@ -122,8 +159,8 @@ pub fn wmc_lines(rng: &mut Rng, maxvars: usize, maxops: usize) -> Vec<String> {
             let (sh, shw) = by_prime!(pi, sem_hash, d, n);
             let (shn, _) = by_prime!(pi, sem_hash, d.neg(), n);
             format!(
-                "tt={} cn={} ca={} sm={} sa={} mc={} cr={} nodes={} sh={} shn={} shw={}",
-                tt, cn, ca, bdd_raw_string(sm), sa, mc, f64_exact(cr), d.count_nodes(), sh, shn, pairs(&shw)
+                "tt={} cn={} ca={} sm={} sa={} mc={} cr={} nodes={} sh={} shn={} shw={} smk={}",
+                tt, cn, ca, bdd_raw_string(sm), sa, mc, f64_exact(cr), d.count_nodes(), sh, shn, pairs(&shw), smk.join(";")
             )
         });
         out.push(format!("{} => {}", head, r.unwrap_or_else(|e| e)));
